@@ -29,6 +29,36 @@ def run_method(prog: Program, clsname: str, name: str, connected: bool, extra: O
     return I, I.run(fi, args, st), fi
 
 
+def property_returns_field(prog: Program, ci: Any, prop: Any, field: str) -> Optional[bool]:
+    """Does the property getter return the value of self.<field> on every path, with no effect and no raise?
+    Decided by interpreting the getter on an object whose field holds a symbolic boolean (not by its text)."""
+    from ..interp import HeapObj, Interp
+
+    I = Interp(prog)
+    st = I.new_state()
+    flag = ("sym", f"flag:{field}", "bool")
+    selfv = st.alloc(HeapObj("obj", ci, {field: flag}, [], False, "self", False))
+    outs = I.run(prop, {prop.params[0]: selfv}, st)
+    if not outs:
+        return None
+    for o in outs:
+        if o.kind != "return":
+            return False
+        if [e for e in o.state.events if e.kind in ("call", "store", "storeitem", "global")]:
+            return False
+        v = o.value
+        if v == flag or v == ("truthy", flag):
+            continue
+        # `True if self._flag else False` and the like: the value is the constant matching the guard on this path
+        pcs = [g for g in o.state.pc]
+        if v == c(True) and (("truthy", flag) in pcs or flag in pcs):
+            continue
+        if v == c(False) and (("not", ("truthy", flag)) in pcs or ("not", flag) in pcs):
+            continue
+        return False
+    return True
+
+
 def sig_events(o: Outcome) -> List[Tuple[str, str, Tuple[str, ...]]]:
     return [(e.kind, e.target, tuple(T.show(a)[:60] for a in e.args)) for e in o.state.events if e.kind in ("call", "store") and not e.target.startswith("logger.")]
 
@@ -130,8 +160,7 @@ def run(prog: Program, rep: Report, tier: str) -> None:
     ci = prog.cls(f"{API}:SwitcherApi")
     prop = ci.properties.get("connected")
     if prop is not None:
-        body = [s for s in prop.node.body if not (isinstance(s, ast.Expr) and isinstance(s.value, ast.Constant))]
-        okp = len(body) == 1 and isinstance(body[0], ast.Return) and ast.unparse(body[0].value) == "self._connected"
+        okp = property_returns_field(prog, ci, prop, "_connected")
         rep.check(okp, "R18.1", "connected reads the flag", f"{loc(prop, prop.node)} connected", "the connected property does not return the flag", key="R18.1|property")
     else:
         rep.undecided("R18.1", "connected property", "-", "anchor vanished")
